@@ -43,7 +43,7 @@ Record mhk := { mbits : bits; mid : N }.
 
 Inductive skey := KSize | KData (path : bits) (id : N).
 Inductive sval := VSize (n : Z) | VKey (k : mhk).
-Definition row : Type := skey * sval.
+Notation row := (skey * sval)%type (only parsing).
 Definition sstore := list row.
 
 Definition skey_eqb (a b : skey) : bool :=
